@@ -214,9 +214,9 @@ CLAIMED["C14"] = {
              "ends of a partition are searched with the same (parts, start, total); a routing macro of another shape is evaluated on small "
              "numbers and a value outside 0..parts-1, or an end sentinel below parts, is a violation; the LP table holds n_lps_node entries and "
              "is shifted by the first hosted id after allocation and back before release; lp_global_init and the head of lp_init, interpreted for "
-             "1..12 LPs x 1..4 ranks x 1..4 threads, give ranges that tile the identifier space and agree with the routing macros; the product "
+             "1..12 LPs x 1..4 ranks x 1..4 threads, give ranges that tile the identifier space, agree with the routing macros and leave no thread without an LP; the product "
              "inside a routing macro is 64 bits wide. NOT "
-             "decided: 'no idle thread when LPs >= threads' and overflow for identifiers near 2^64."),
+             "decided: overflow for identifier counts near 2^64 and configurations beyond the interpreted ones (12 LPs, 4 ranks, 4 threads)."),
     "note": TRUST + " Counts (n_nodes, n_threads, lps, n_lps_node) are assumed positive; lps == 0 is confirmed rejected by RootsimInit.",
 }
 
